@@ -69,6 +69,15 @@ def run(tier, seed):
         n, nu, nbad = F.compare(V, g.beh, seeds, what, keep, layouts=("oneline", "multiline"))
         total += n
         uniq += nu
+        # the same contract in every other output mode (a dialect class must not change keys, nullability, flags or columns): each mode a slice
+        from .. import clauses as KM
+        import random as _r
+        msub = g.beh if len(g.beh) <= 560 else _r.Random(seed).sample(g.beh, 560)
+        others = [m for m in KM.MODES if m != "sql"]
+        for mi, m_ in enumerate(others):
+            n2, nu2, _ = F.compare(V, msub[mi::len(others)], seeds[:1], f"{what} / {m_}", keep, run={"output_mode": m_}, layouts=("oneline", "multiline"))
+            total += n2
+            uniq += nu2
         tags = {}
         for b in g.beh:
             for tg in F.spec_tags(b):
